@@ -14,12 +14,14 @@
    the empty archive and empty messages included.  (2) byte level: the reader only depends on
    the observable content of the archive (C06_reader_sees_observations_only), so the round trip
    on BYTES follows from the bin-archive round trip on archives made of raw bytes and labels
-   ([bin_round_trip_premise], an instance of C01's theorem).  Until C01 is merged that premise
-   is explicit: C06_round_trip_partial / C06_layout_bytes_partial; the premise-free statements
-   are the Definitions C06_round_trip_full / C06_layout_bytes_full. *)
+   ([bin_round_trip_premise]); that premise is discharged from the C01 theorems
+   (serialize_conforms + parser_correct) in Proofs/TextBinBridge.v: what the text writer builds
+   satisfies C01's wf_archive / fits32 (C06_image_in_C01_domain).  C06_round_trip and
+   C06_layout_bytes are premise-free; their hypotheses are the property's domain (distinct keys,
+   NUL-free title / keys / messages, valid UTF-16) and "the file is smaller than 4 GiB". *)
 From Coq Require Import List NArith ZArith Bool.
 From Mila Require Import Lib.Bytes Lib.Machine Model.BinArchive Model.BinStreams Model.BinFormat Model.TextMap Model.TextFormat
-  Proofs.ObsEqual Proofs.TextFormatRead Proofs.TextFormatWrite Proofs.TextFormatRoundTrip.
+  Proofs.BinSerializeConforms Proofs.ObsEqual Proofs.TextFormatRead Proofs.TextFormatWrite Proofs.TextFormatRoundTrip Proofs.TextBinBridge.
 Import ListNotations.
 Local Open Scope N_scope.
 
@@ -66,11 +68,16 @@ Definition C06_round_trip_statement (m : mode) : Prop :=
   forall fmt e t, wf_text fmt t -> wf_text_bytes fmt e t ->
     exists f t', TextFormat.serialize m fmt e t = Ok f /\ TextFormat.from_bytes fmt e f = Ok t' /\
       (fmt = Unicode -> t_title t' = t_title t) /\ t_entries t' = t_entries t /\ t_dirty t' = false.
-Definition C06_round_trip_full : Prop := forall m, C06_round_trip_statement m.
-(* proved relative to the bin-archive round trip (C01) on plain labelled archives; what is missing for
-   C06_round_trip_full is exactly [forall m, bin_round_trip_premise m] *)
-Theorem C06_round_trip_partial : forall m, bin_round_trip_premise m -> C06_round_trip_statement m.
-Proof. exact text_round_trip_bytes_explicit. Qed.
+(* the archives the writer builds lie in the domain of the bin-archive round trip C01 (wf_archive, fits32 of
+   Proofs/BinSerializeConforms.v), and on them that round trip yields an observationally equal archive *)
+Theorem C06_image_in_C01_domain : forall fmt e t, wf_text_bytes fmt e t ->
+  wf_archive (text_image fmt e t) /\ fits32 (text_image fmt e t).
+Proof. exact text_image_in_C01_domain. Qed.
+Theorem C06_bin_round_trip_premise : forall m, bin_round_trip_premise m.
+Proof. exact bin_round_trip_plain. Qed.
+(* the round trip on BYTES, both arithmetic profiles, all four encoding x endianness combinations *)
+Theorem C06_round_trip : forall m, C06_round_trip_statement m.
+Proof. exact text_round_trip_bytes_final. Qed.
 
 Definition C06_layout_bytes_statement (m : mode) : Prop :=
   forall fmt e t, wf_text_bytes fmt e t ->
@@ -78,9 +85,8 @@ Definition C06_layout_bytes_statement (m : mode) : Prop :=
       forall i k msg, nth_error (t_entries t) i = Some (k, msg) ->
         let off := entry_offset fmt t i in
         off mod 4 = 0 /\ read_labels a' off = Ok (Some [k]) /\ sliceN off (lenN (cell fmt msg)) (a_data a') = Some (cell fmt msg).
-Definition C06_layout_bytes_full : Prop := forall m, C06_layout_bytes_statement m.
-Theorem C06_layout_bytes_partial : forall m, bin_round_trip_premise m -> C06_layout_bytes_statement m.
-Proof. exact text_layout_bytes. Qed.
+Theorem C06_layout_bytes : forall m, C06_layout_bytes_statement m.
+Proof. exact text_layout_bytes_final. Qed.
 
 (* ---- non-vacuity ---- *)
 (* a Unicode archive whose first message starts with U+FEFF, contains the units 0x0001 0x0100 (bytes 01 00 00 01)
